@@ -1,365 +1,12 @@
-import TruthModel.Props.C03
+import TruthModel.Props.C16Instr
+import TruthModel.Props.C16Files
 /-
 C16 — any binary input ends in success or a diagnostic, never a crash.
-Instruction level: for EVERY byte string and every format, `readInstr` and the script loop
-`readInstrs` return `.ok` or `.err` (never `.panic`), each parsed instruction consumes at least a
-header (so the loop terminates within `bs.length + 1` iterations: the fuel is never exhausted),
-and no parsed blob is longer than the input.
-(Imports `Props.C03` only for `readInstr_msg_cons`, `commit` and `readInstrsAux_succ`.)
+
+* `Props/C16Instr.lean`: instruction level - `readInstr` / `readInstrs` of every header layout are
+  total, panic-free, fuel-sufficient and allocation-bounded for EVERY byte string.
+* `Props/C16Files.lean`: container level - the same for whole MSG, STD, mission MSG and old ECL
+  files (`*_read_no_panic`, `*_read_total`, `*_read_alloc_bound`), including the one reachable panic
+  of the old ECL reader (`ecl_read_panics_witness`) and the amplification of the STD / ECL offset
+  tables (`std_alloc_amplification`).
 -/
-namespace TruthModel.C16
-open TruthModel TruthModel.InstrIO
-
-/-! ### every primitive reader consumes a prefix of known length -/
-
-theorem rdU8_spec (bs : Bytes) :
-    rdU8 bs = none ∨ ∃ v r, rdU8 bs = some (v, r) ∧ ∃ p : Bytes, p.length = 1 ∧ bs = p ++ r := by
-  match bs with
-  | [] => exact .inl rfl
-  | a :: r => exact .inr ⟨_, _, rfl, [a], rfl, rfl⟩
-
-theorem rdU16_spec (bs : Bytes) :
-    rdU16 bs = none ∨ ∃ v r, rdU16 bs = some (v, r) ∧ ∃ p : Bytes, p.length = 2 ∧ bs = p ++ r := by
-  match bs with
-  | [] | [_] => exact .inl rfl
-  | a :: b :: r => exact .inr ⟨_, _, rfl, [a, b], rfl, rfl⟩
-
-theorem rdU32_spec (bs : Bytes) :
-    rdU32 bs = none ∨ ∃ v r, rdU32 bs = some (v, r) ∧ ∃ p : Bytes, p.length = 4 ∧ bs = p ++ r := by
-  match bs with
-  | [] | [_] | [_, _] | [_, _, _] => exact .inl rfl
-  | a :: b :: c :: d :: r => exact .inr ⟨_, _, rfl, [a, b, c, d], rfl, rfl⟩
-
-theorem rdI16_spec (bs : Bytes) :
-    rdI16 bs = none ∨ ∃ v r, rdI16 bs = some (v, r) ∧ ∃ p : Bytes, p.length = 2 ∧ bs = p ++ r := by
-  unfold rdI16
-  rcases rdU16_spec bs with h | ⟨v, r, h, hp⟩
-  · exact .inl (by rw [h]; rfl)
-  · exact .inr ⟨_, _, by rw [h]; rfl, hp⟩
-
-theorem rdI32_spec (bs : Bytes) :
-    rdI32 bs = none ∨ ∃ v r, rdI32 bs = some (v, r) ∧ ∃ p : Bytes, p.length = 4 ∧ bs = p ++ r := by
-  unfold rdI32
-  rcases rdU32_spec bs with h | ⟨v, r, h, hp⟩
-  · exact .inl (by rw [h]; rfl)
-  · exact .inr ⟨_, _, by rw [h]; rfl, hp⟩
-
-theorem rdBytes_spec (n : Nat) (bs : Bytes) :
-    rdBytes n bs = none ∨ ∃ b r, rdBytes n bs = some (b, r) ∧ b.length = n ∧ bs = b ++ r := by
-  unfold rdBytes
-  split
-  · exact .inr ⟨_, _, rfl, by rw [List.length_take]; omega, (List.take_append_drop n bs).symm⟩
-  · exact .inl rfl
-
-/-! ### shape of a parsed instruction, format by format -/
-
-/-- the shape of any successfully parsed instruction: a header of the format's size, the blob, the rest -/
-def Shape (f : Fmt) (bs : Bytes) (o : Outcome (ReadRes × Bytes)) : Prop :=
-  ∀ res rest i, o = .ok (res, rest) → (res = .instr i ∨ res = .maybeTerminal i) →
-    ∃ hdr : Bytes, hdr.length = headerSize f ∧ bs = hdr ++ (i.blob ++ rest)
-
-local macro "peel " t:term " => " v:ident r:ident : tactic =>
-  `(tactic| (obtain h | ⟨$v:ident, $r:ident, h, p, hp, hbs⟩ := $t <;> simp only [h] <;> (try subst hbs)))
-
-theorem shape_err (f : Fmt) (bs : Bytes) (c : String) : Shape f bs (.err c) := by
-  intro _ _ _ h; cases h
-
-theorem fin3 (p1 p2 p3 x : Bytes) : p1 ++ (p2 ++ (p3 ++ x)) = (p1 ++ (p2 ++ p3)) ++ x := by
-  simp only [List.append_assoc]
-theorem fin4 (p1 p2 p3 p4 x : Bytes) : p1 ++ (p2 ++ (p3 ++ (p4 ++ x))) = (p1 ++ (p2 ++ (p3 ++ p4))) ++ x := by
-  simp only [List.append_assoc]
-theorem fin6 (p1 p2 p3 p4 p5 p6 x : Bytes) :
-    p1 ++ (p2 ++ (p3 ++ (p4 ++ (p5 ++ (p6 ++ x))))) = (p1 ++ (p2 ++ (p3 ++ (p4 ++ (p5 ++ p6))))) ++ x := by
-  simp only [List.append_assoc]
-
-theorem shape_terminal (f : Fmt) (bs r : Bytes) : Shape f bs (.ok (.terminal, r)) := by
-  intro _ _ _ h hi; cases h; cases hi <;> contradiction
-
-theorem shape_anm07 (bs : Bytes) : Shape .anm07 bs (readInstr .anm07 bs) := by
-  simp only [readInstr]
-  peel rdU16_spec bs => opcode r
-  · exact shape_err _ _ _
-  peel rdU16_spec r => size r
-  · exact shape_err _ _ _
-  split
-  · exact shape_terminal _ _ _
-  peel rdI16_spec r => time r
-  · exact shape_err _ _ _
-  peel rdU16_spec r => mask r
-  · exact shape_err _ _ _
-  split
-  · exact shape_err _ _ _
-  peel rdBytes_spec (size - 8) r => blob r
-  · exact shape_err _ _ _
-  intro _ _ _ h hi
-  cases h
-  rcases hi with hi | hi <;> cases hi
-  refine ⟨_, ?_, fin4 _ _ _ _ _⟩
-  simp only [List.length_append, headerSize, *]
-
-
-local macro "leaf " t:term : tactic =>
-  `(tactic| (intro _ _ _ h hi; cases h; rcases hi with hi | hi <;> cases hi <;>
-      (refine ⟨_, ?_, $t⟩; simp only [List.length_append, headerSize, *])))
-
-theorem shape_msg (bs : Bytes) : Shape .msg bs (readInstr .msg bs) := by
-  match bs with
-  | [] => intro _ _ _ h hi; cases h; cases hi <;> contradiction
-  | [_] => exact shape_err _ _ _
-  | a :: b :: bs =>
-    rw [C03.readInstr_msg_cons]
-    generalize a :: b :: bs = bs
-    peel rdI16_spec bs => time r
-    · exact shape_err _ _ _
-    peel rdU8_spec r => opcode r
-    · exact shape_err _ _ _
-    peel rdU8_spec r => argsize r
-    · exact shape_err _ _ _
-    peel rdBytes_spec argsize r => blob r
-    · exact shape_err _ _ _
-    split
-    · leaf fin3 _ _ _ _
-    · leaf fin3 _ _ _ _
-
-theorem shape_std06 (bs : Bytes) : Shape .std06 bs (readInstr .std06 bs) := by
-  simp only [readInstr]
-  peel rdI32_spec bs => time r
-  · exact shape_err _ _ _
-  peel rdU16_spec r => opcode r
-  · exact shape_err _ _ _
-  peel rdU16_spec r => argsize r
-  · exact shape_err _ _ _
-  split
-  · exact shape_terminal _ _ _
-  split
-  · exact shape_err _ _ _
-  peel rdBytes_spec 12 r => blob r
-  · exact shape_err _ _ _
-  leaf fin3 _ _ _ _
-
-theorem shape_std10 (bs : Bytes) : Shape .std10 bs (readInstr .std10 bs) := by
-  simp only [readInstr]
-  peel rdI32_spec bs => time r
-  · exact shape_err _ _ _
-  peel rdU16_spec r => opcode r
-  · exact shape_err _ _ _
-  peel rdU16_spec r => size r
-  · exact shape_err _ _ _
-  split
-  · exact shape_terminal _ _ _
-  split
-  · exact shape_err _ _ _
-  peel rdBytes_spec (size - 8) r => blob r
-  · exact shape_err _ _ _
-  leaf fin3 _ _ _ _
-
-theorem shape_ecl (f : Fmt) (hf : f = .ecl06 ∨ f = .ecl07) (bs : Bytes) : Shape f bs (readInstr f bs) := by
-  rcases hf with rfl | rfl <;>
-  · simp only [readInstr]
-    peel rdI32_spec bs => time r
-    · exact shape_err _ _ _
-    peel rdU16_spec r => opcode r
-    · exact shape_err _ _ _
-    peel rdI16_spec r => size r
-    · exact shape_err _ _ _
-    peel rdU8_spec r => pad r
-    · exact shape_err _ _ _
-    peel rdU8_spec r => difficulty r
-    · exact shape_err _ _ _
-    peel rdU16_spec r => mask r
-    · exact shape_err _ _ _
-    split
-    · exact shape_err _ _ _
-    peel rdBytes_spec (size.toNat - 12) r => blob r
-    · exact shape_err _ _ _
-    split
-    · exact shape_terminal _ _ _
-    leaf fin6 _ _ _ _ _ _ _
-
-theorem shape_tl06 (bs : Bytes) : Shape .tl06 bs (readInstr .tl06 bs) := by
-  simp only [readInstr]
-  peel rdI16_spec bs => time r
-  · exact shape_err _ _ _
-  peel rdI16_spec r => arg0 r
-  · exact shape_err _ _ _
-  split
-  · exact shape_terminal _ _ _
-  peel rdU16_spec r => opcode r
-  · exact shape_err _ _ _
-  peel rdI16_spec r => size r
-  · exact shape_err _ _ _
-  split
-  · exact shape_err _ _ _
-  peel rdBytes_spec (size.toNat - 8) r => blob r
-  · exact shape_err _ _ _
-  leaf fin4 _ _ _ _ _
-
-theorem shape_tl08 (bs : Bytes) : Shape .tl08 bs (readInstr .tl08 bs) := by
-  simp only [readInstr]
-  peel rdI32_spec bs => time r
-  · exact shape_err _ _ _
-  peel rdU16_spec r => opcode r
-  · exact shape_err _ _ _
-  peel rdU8_spec r => size r
-  · exact shape_err _ _ _
-  peel rdU8_spec r => difficulty r
-  · exact shape_err _ _ _
-  split
-  · exact shape_terminal _ _ _
-  split
-  · exact shape_err _ _ _
-  peel rdBytes_spec (size - 8) r => blob r
-  · exact shape_err _ _ _
-  leaf fin4 _ _ _ _ _
-
-/-- Every successfully parsed instruction is `header ++ blob ++ rest` with a header of exactly the
-format's header size. -/
-theorem readInstr_shape (f : Fmt) (bs : Bytes) (res : ReadRes) (rest : Bytes) (i : Instr)
-    (h : readInstr f bs = .ok (res, rest)) (hi : res = .instr i ∨ res = .maybeTerminal i) :
-    ∃ hdr : Bytes, hdr.length = headerSize f ∧ bs = hdr ++ (i.blob ++ rest) := by
-  have : Shape f bs (readInstr f bs) := by
-    cases f
-    · exact shape_msg bs
-    · exact shape_anm07 bs
-    · exact shape_std06 bs
-    · exact shape_std10 bs
-    · exact shape_ecl _ (.inl rfl) bs
-    · exact shape_ecl _ (.inr rfl) bs
-    · exact shape_tl06 bs
-    · exact shape_tl08 bs
-  exact this res rest i h hi
-
-
-/-! ### the theorems of the claim -/
-
-/-- `readInstr` never reaches a panic site, for any format and ANY byte string. -/
-theorem readInstr_no_panic (f : Fmt) (bs : Bytes) : (readInstr f bs).isPanic = false := by
-  cases f <;> simp only [readInstr] <;> (repeat' split) <;> rfl
-
-/-- the only diagnostics of `readInstr` are "unexpected EOF" and "bad instruction size" -/
-theorem readInstr_err (f : Fmt) (bs : Bytes) (c : String) (h : readInstr f bs = .err c) :
-    c = eofErr ∨ c = badSize := by
-  revert h
-  cases f <;> simp only [readInstr] <;> (repeat' split) <;> intro h <;>
-    first | (injection h with h; subst h; first | exact .inl rfl | exact .inr rfl) | contradiction
-
-/-- A parsed instruction consumed at least a header, and what remains is a suffix of the input. -/
-theorem readInstr_consumes (f : Fmt) (bs : Bytes) (r : ReadRes) (rest : Bytes) (i : Instr)
-    (h : readInstr f bs = .ok (r, rest)) (hi : r = .instr i ∨ r = .maybeTerminal i) :
-    rest.length + headerSize f ≤ bs.length ∧ rest <:+ bs := by
-  obtain ⟨hdr, hl, rfl⟩ := readInstr_shape f bs r rest i h hi
-  constructor
-  · simp only [List.length_append]; omega
-  · exact ⟨hdr ++ i.blob, by simp only [List.append_assoc]⟩
-
-/-- The reader never produces more data than the input holds. -/
-theorem readInstr_alloc_bound (f : Fmt) (bs : Bytes) (r : ReadRes) (rest : Bytes) (i : Instr)
-    (h : readInstr f bs = .ok (r, rest)) (hi : r = .instr i ∨ r = .maybeTerminal i) :
-    i.blob.length ≤ bs.length := by
-  obtain ⟨hdr, hl, rfl⟩ := readInstr_shape f bs r rest i h hi
-  simp only [List.length_append]; omega
-
-theorem headerSize_pos (f : Fmt) : 0 < headerSize f := by cases f <;> decide
-
-/-- With more fuel than input bytes the script loop never runs out of fuel. -/
-theorem readInstrsAux_fuel (f : Fmt) :
-    ∀ (n : Nat) (pending : Option Instr) (acc : List Instr) (bs : Bytes), bs.length < n →
-      readInstrsAux f n pending acc bs ≠ .err "fuel" := by
-  intro n
-  induction n with
-  | zero => intro _ _ bs h; omega
-  | succ n ih =>
-    intro pending acc bs hn
-    rw [C03.readInstrsAux_succ]
-    have hp := headerSize_pos f
-    cases h : readInstr f bs with
-    | ok p =>
-      obtain ⟨res, r⟩ := p
-      cases res with
-      | instr i =>
-        have := (readInstr_consumes f bs _ r i h (.inl rfl)).1
-        exact ih _ _ _ (by omega)
-      | maybeTerminal i =>
-        have := (readInstr_consumes f bs _ r i h (.inr rfl)).1
-        exact ih _ _ _ (by omega)
-      | terminal => intro h'; cases h'
-      | eof => intro h'; cases h'
-    | err c =>
-      intro h'
-      injection h' with h'
-      subst h'
-      rcases readInstr_err f bs _ h with h' | h' <;> exact absurd h' (by decide)
-    | panic s => intro h'; cases h'
-
-theorem readInstrs_fuel_suffices (f : Fmt) (bs : Bytes) : readInstrs f bs ≠ .err "fuel" :=
-  readInstrsAux_fuel f _ none [] bs (Nat.lt_succ_self _)
-
-theorem readInstrsAux_no_panic (f : Fmt) :
-    ∀ (n : Nat) (pending : Option Instr) (acc : List Instr) (bs : Bytes),
-      (readInstrsAux f n pending acc bs).isPanic = false := by
-  intro n
-  induction n with
-  | zero => intro pending acc bs; cases pending <;> rfl
-  | succ n ih =>
-    intro pending acc bs
-    rw [C03.readInstrsAux_succ]
-    have hp := readInstr_no_panic f bs
-    cases h : readInstr f bs with
-    | ok p =>
-      obtain ⟨res, r⟩ := p
-      cases res with
-      | instr i => exact ih _ _ _
-      | maybeTerminal i => exact ih _ _ _
-      | terminal => rfl
-      | eof => rfl
-    | err c => rfl
-    | panic s => rw [h] at hp; cases hp
-
-/-- The script loop ends in success or a diagnostic, never a crash, for ANY byte string. -/
-theorem readInstrs_no_panic (f : Fmt) (bs : Bytes) : (readInstrs f bs).isPanic = false :=
-  readInstrsAux_no_panic f _ none [] bs
-
-theorem readInstrsAux_err (f : Fmt) :
-    ∀ (n : Nat) (pending : Option Instr) (acc : List Instr) (bs : Bytes) (c : String),
-      readInstrsAux f n pending acc bs = .err c → c = eofErr ∨ c = badSize ∨ c = "fuel" := by
-  intro n
-  induction n with
-  | zero =>
-    intro pending acc bs c h
-    cases pending <;> (rw [readInstrsAux] at h; injection h with h; exact .inr (.inr h.symm))
-  | succ n ih =>
-    intro pending acc bs c
-    rw [C03.readInstrsAux_succ]
-    cases h : readInstr f bs with
-    | ok p =>
-      obtain ⟨res, r⟩ := p
-      cases res with
-      | instr i => exact ih _ _ _ _
-      | maybeTerminal i => exact ih _ _ _ _
-      | terminal => intro h'; cases h'
-      | eof => intro h'; cases h'
-    | err c' =>
-      intro h'
-      injection h' with h'
-      subst h'
-      rcases readInstr_err f bs _ h with h' | h'
-      · exact .inl h'
-      · exact .inr (.inl h')
-    | panic s => intro h'; cases h'
-
-/-- Summary: every byte string gives a script or one of the two reader diagnostics. -/
-theorem readInstrs_total (f : Fmt) (bs : Bytes) :
-    (∃ is, readInstrs f bs = .ok is) ∨ readInstrs f bs = .err eofErr ∨ readInstrs f bs = .err badSize := by
-  cases h : readInstrs f bs with
-  | ok is => exact .inl ⟨is, rfl⟩
-  | err c =>
-    rcases readInstrsAux_err f _ _ _ _ _ h with rfl | rfl | rfl
-    · exact .inr (.inl rfl)
-    · exact .inr (.inr rfl)
-    · exact absurd h (readInstrs_fuel_suffices f bs)
-  | panic s =>
-    have := readInstrs_no_panic f bs
-    rw [h] at this
-    cases this
-
-end TruthModel.C16
